@@ -29,7 +29,7 @@ struct Opt {
     int fcomp = 0;          // 0 none 1 gz 2 bz2
     int pool = 2;           // reader pool threads
     bool via_memory = false;
-    bool by_item = false;
+    int by_item = 0;        // 0: whole buffers, 1: single items, 2: items and buffers mixed on one Writer
     bool is_pbf() const { return fmt == PBF || fmt == OSHPBF; }
     bool is_xml() const { return fmt <= OSH; }
     bool history() const { return fmt == OSC || fmt == OSH || fmt == OSHPBF; }
@@ -57,7 +57,7 @@ std::string format_string(const Opt& o) {
 }
 
 std::string opt_string(const Opt& o) {
-    return format_string(o) + vh::fmt(" pool=%d %s %s", o.pool, o.via_memory ? "read-from-memory" : "read-from-file", o.by_item ? "writer-fed-by-item" : "writer-fed-by-buffer");
+    return format_string(o) + vh::fmt(" pool=%d %s %s", o.pool, o.via_memory ? "read-from-memory" : "read-from-file", o.by_item == 1 ? "writer-fed-by-item" : o.by_item == 2 ? "writer-fed-mixed" : "writer-fed-by-buffer");
 }
 
 Opt gen_opt(vh::Rng& rng) {
@@ -70,7 +70,7 @@ Opt gen_opt(vh::Rng& rng) {
     o.fcomp = static_cast<int>(rng.below(3));
     o.pool = rng.pick(std::vector<int>{1, 2, 4});
     o.via_memory = rng.coin();
-    o.by_item = rng.chance(1, 3);
+    o.by_item = static_cast<int>(rng.below(3));
     return o;
 }
 
@@ -158,12 +158,28 @@ WriteOutcome write_dataset(const std::string& path, const Opt& o, const mdl::Hea
     try {
         osmium::io::File file{path, format_string(o)};
         osmium::io::Writer writer{file, iou::model_to_header(H), osmium::io::overwrite::allow, pool(2)};
-        if (o.by_item) {
+        if (o.by_item == 1) {
             osmium::memory::Buffer buf{1024, osmium::memory::Buffer::auto_grow::yes};
             for (const auto& obj : D) {
                 buf.clear();
                 mdl::to_buffer(obj, buf);
                 writer(*buf.begin());
+            }
+        } else if (o.by_item == 2) {
+            // runs of single items alternating with whole buffers on the same Writer
+            osmium::memory::Buffer item_buf{1024, osmium::memory::Buffer::auto_grow::yes};
+            size_t i = 0;
+            bool items = true;
+            while (i < D.size()) {
+                const size_t run = 1 + (i * 7 + D.size()) % 4;
+                if (items) {
+                    for (size_t k = 0; k < run && i < D.size(); ++k, ++i) { item_buf.clear(); mdl::to_buffer(D[i], item_buf); writer(*item_buf.begin()); }
+                } else {
+                    osmium::memory::Buffer buf{4096, osmium::memory::Buffer::auto_grow::yes};
+                    for (size_t k = 0; k < run && i < D.size(); ++k, ++i) mdl::to_buffer(D[i], buf);
+                    writer(std::move(buf));
+                }
+                items = !items;
             }
         } else {
             osmium::memory::Buffer buf{64 * 1024, osmium::memory::Buffer::auto_grow::yes};
@@ -204,7 +220,7 @@ void check_case(const Opt& o, const mdl::Header& H, const std::vector<mdl::Obj>&
     vh::cover("pbf_opts", o.is_pbf() ? vh::fmt("dense=%d comp=%d", o.dense, o.pbfcomp) : "-");
     vh::cover("reader", vh::fmt("pool=%d mem=%d", o.pool, o.via_memory));
     vh::cover("locations_on_ways", std::to_string(o.low));
-    vh::cover("writer_feed", o.by_item ? "item" : "buffer");
+    vh::cover("writer_feed", o.by_item == 1 ? "item" : o.by_item == 2 ? "mixed" : "buffer");
     if (!w.ok) {
         // documented: OPL + locations_on_ways + defined-but-invalid location
         if (o.fmt == OPL && o.low && w.error_type == "osmium::invalid_location" && has_invalid_way_location(D)) { vh::count("expected_writer_exception"); return; }
